@@ -93,8 +93,17 @@ var impls = func() []string {
 	for _, im := range baseImpls {
 		out = append(out, im+"(batch)")
 	}
-	return append(out, "printed(batch)")
+	out = append(out, "printed(batch)")
+	return append(out, wrapImpls...)
 }()
+
+// The constructors are also fed constant indices wrapped in *constant.Index (what
+// constant.NewIndex returns and what the parser builds for constant-expression indices):
+// "Index" = every constant index wrapped, InRange as the case says (false unless `inrange`);
+// "Index.InRange set" = wrapped and InRange set to true after construction. The wrapper does
+// not take part in typing.
+var wrapImpls = []string{"ir.NewGetElementPtr(Index)", "constant.NewGetElementPtr(Index)",
+	"ir.NewGetElementPtr(Index.InRange set)", "constant.NewGetElementPtr(Index.InRange set)"}
 
 // baseImpl is the case-by-case observation point a batch or re-read point repeats.
 func baseImpl(im string) string {
@@ -560,6 +569,44 @@ func (e *env) evaluate(c *gcase, valid [3]bool) *result {
 			r.out["constant.NewGetElementPtr"] = tyutil.Observe(func() (types.Type, error) {
 				return constant.NewGetElementPtr(o.elem, o.baseC, o.idxC...).Type(), nil
 			})
+		}
+		for _, set := range []bool{false, true} {
+			set := set
+			suffix := "(Index)"
+			if set {
+				suffix = "(Index.InRange set)"
+			}
+			wrap := func(k int, c constant.Constant) *constant.Index {
+				if w, ok := c.(*constant.Index); ok {
+					c = w.Constant
+				}
+				w := constant.NewIndex(c)
+				if set || r.c.Idxs[k].IR {
+					w.InRange = true
+				}
+				return w
+			}
+			if valid[0] {
+				r.out["ir.NewGetElementPtr"+suffix] = tyutil.Observe(func() (types.Type, error) {
+					var vs []value.Value
+					for k, v := range o.idxV {
+						if c, ok := v.(constant.Constant); ok {
+							v = wrap(k, c)
+						}
+						vs = append(vs, v)
+					}
+					return ir.NewGetElementPtr(o.elem, o.baseV, vs...).Type(), nil
+				})
+			}
+			if valid[1] {
+				r.out["constant.NewGetElementPtr"+suffix] = tyutil.Observe(func() (types.Type, error) {
+					var cs []constant.Constant
+					for k, c := range o.idxC {
+						cs = append(cs, wrap(k, c))
+					}
+					return constant.NewGetElementPtr(o.elem, o.baseC, cs...).Type(), nil
+				})
+			}
 		}
 		if valid[2] {
 			r.out["asm.alias"] = tyutil.Observe(func() (types.Type, error) {
